@@ -35,11 +35,36 @@ UNITS = {
         ],
         "contracts": ["contracts/base64.vc"],
     },
+    "range_parse": {
+        "preludes": ["shims/core.rs", "shims/fs.rs"],
+        "specs": ["contracts/spec/range.rs"],
+        "sources": [
+            SYMBOL_SRC,
+            ("src/response/mod.rs", ["struct:StatusCodeReasonPhrase", "struct:ResponseStatusCodeReasonPhrase",
+                                     "const:STATUS_CODE_REASON_PHRASE", "struct:Error"]),
+            ("src/range/mod.rs", ["struct:Range", "struct:ContentRange", "consts:Range",
+                                  "fn:Range::parse_range_in_content_range", "fn:Range::parse_content_range"]),
+        ],
+        "contracts": ["contracts/range.vc"],
+    },
 }
 for k, v in UNITS.items():
     v["name"] = k
 
 PROPS = {
+    "C03": {
+        "units": ["range_parse"],
+        "level": "proof",
+        "falsifier": "range",
+        "samples": [
+            "Range::parse_range_in_content_range / postcondition / res.is_ok() ==> range_ok(filelength, range_str@, res.unwrap())",
+            "Range::parse_content_range / postcondition / forall j: part_ok(filepath, filelength, range_specs(raw)[j], res[j])",
+        ],
+        "assumptions": [
+            "FileExt::read_file_partially returns bytes [start, min(end+1, len)) of the named file (contract read off file-ext 12.1.0)",
+            "file sizes are below u64::MAX (parse_content_range requires filelength < u64::MAX)",
+        ],
+    },
     "C18": {
         "units": ["base64_encode", "base64_decode"],
         "falsifier": "base64",
